@@ -13,6 +13,7 @@
     `mentionsOf … k`      the (layer, path) list of the mentioning values, source first
 -/
 import YtkProofs.Analytics
+import YtkProofs.FuncsLemmas
 
 namespace Ytk.C19
 open Ytk.Analytics
@@ -253,5 +254,23 @@ theorem nonvacuous_failed :
   have : possiblyContainsPlaceholder kv.1 = true := he ▸ hv
   simp only [exMerged, List.mem_cons, List.not_mem_nil, or_false] at hkv
   rcases hkv with rfl | rfl | rfl <;> exact absurd this (by decide)
+
+end Ytk.C19
+
+/-! ## Translated functions (YtkModel/Generated/Funcs.lean, regenerated from the Go source on every
+    run): the translation EQUALS the hand-written model, for all inputs. -/
+namespace Ytk.C19
+open Ytk.Generated
+
+theorem Unique_loop1_eq (xs acc : List String) : Funcs.Unique_loop1 xs acc = Analytics.unique acc xs := by
+  induction xs generalizing acc with
+  | nil => simp [Funcs.Unique_loop1, Analytics.unique]
+  | cons x xs ih =>
+    simp only [Funcs.Unique_loop1, Analytics.unique, Go.slicesContains, ih]
+    cases acc.contains x <;> simp
+
+/-- utils.Unique, as translated from the source, is the model's `Analytics.unique []` (all lists) -/
+theorem Unique_generated_eq_model (xs : List String) : Funcs.Unique xs = Analytics.unique [] xs := by
+  simp [Funcs.Unique, Unique_loop1_eq]
 
 end Ytk.C19
